@@ -7,14 +7,14 @@
   2. run ./check <ID> in the scratch verif for each ID given; report VIOLATION lines.
 The demonstration (fails with / passes without the patch) is run separately (its command differs per seed)."""
 import json, os, subprocess, sys, time
-d = sys.argv[1].rstrip("/")
+d = os.path.abspath(sys.argv[1].rstrip("/"))
 ids = sys.argv[2:]
 sd = os.path.join(d, "_seed") if os.path.isdir(os.path.join(d, "_seed")) else d
 patch = os.path.join(sd, "patch.diff")
 name = "sc-" + os.path.basename(d).replace("seed-", "")
 env = dict(os.environ, GOFLAGS="-mod=mod", GOPROXY="off", GOSUMDB="off", GOTOOLCHAIN="local")
 def sh(c, cwd=None, t=1800):
-    p = subprocess.run(c, shell=True, cwd=cwd, env=env, stdout=subprocess.PIPE, stderr=subprocess.STDOUT, text=True, timeout=t)
+    p = subprocess.run(c, shell=True, executable="/bin/bash", cwd=cwd, env=env, stdout=subprocess.PIPE, stderr=subprocess.STDOUT, text=True, timeout=t)
     return p.returncode, p.stdout
 print(sh("/verif/tools/scratch.sh new " + name)[1])
 repo, verif = "/tmp/vs-%s/repo" % name, "/tmp/vs-%s/verif" % name
@@ -28,6 +28,29 @@ rc, out = sh("go test -vet=off -count=1 -timeout 25m ./... 2>&1 | grep -E '^(---
 fails = [l for l in out.splitlines() if l.startswith("--- FAIL") and "TestResolveEndpoint" not in l]
 pk = [l for l in out.splitlines() if l.startswith("FAIL") and "opcua/uacp" not in l and l.strip() != "FAIL"]
 print("suite: unexpected failing tests:", fails, pk); rep["suite_ok"] = not fails and not pk
+# demonstration: must FAIL with the patch and PASS without it
+try:
+    meta = json.load(open(os.path.join(sd, "meta.json")))
+except Exception:
+    meta = {}
+dm = meta.get("demo")
+if dm:
+    import shutil
+    dst = os.path.join(repo, dm["copy_to"])
+    if dm["copy_to"].endswith("/"):
+        os.makedirs(dst, exist_ok=True); dst = os.path.join(dst, os.path.basename(dm["file"]))
+    shutil.copy(os.path.join(sd, dm["file"]), dst)
+    cmd = "go test -vet=off -count=1 -run '%s' %s 2>&1 | tail -15" % (dm["run"], dm["pkg"])
+    rc1, o1 = sh(cmd + "; exit ${PIPESTATUS[0]}", cwd=repo)
+    sh("git apply -R --whitespace=nowarn " + patch, cwd=repo)
+    rc2, o2 = sh(cmd + "; exit ${PIPESTATUS[0]}", cwd=repo)
+    sh("git apply --whitespace=nowarn " + patch, cwd=repo)
+    os.remove(dst)
+    print("demo with patch rc=%d (want !=0); without patch rc=%d (want 0)" % (rc1, rc2))
+    if rc1 == 0 or rc2 != 0:
+        print(o1[-1200:]); print(o2[-1200:])
+    rep["demo_fails_with_patch"] = rc1 != 0
+    rep["demo_passes_without_patch"] = rc2 == 0
 rep["checks"] = {}
 for i in ids:
     t0 = time.time()
@@ -44,4 +67,7 @@ for i in ids:
                 print("  (no replay file)", e)
             break
 print(json.dumps(rep))
+if meta:
+    meta["confirmed"] = {"by": "tools/seedcheck.py in a scratch worktree of /repo HEAD", "repo_head": sh("git rev-parse --short HEAD", cwd=repo)[1].strip(), "result": rep, "when": time.strftime("%Y-%m-%d %H:%M")}
+    json.dump(meta, open(os.path.join(sd, "meta.json"), "w"), indent=1)
 print("scratch left at /tmp/vs-%s  (remove: /verif/tools/scratch.sh rm %s)" % (name, name))
